@@ -424,6 +424,22 @@ Theorem C10_no_crash_policy_partial :
 Proof. exact resolve_no_crash_policy. Qed.
 Print Assumptions C10_no_crash_policy_partial.
 
+(* ... and the guard is needed.  KNOWN FINDING F-C10-3 (found by this proof's forced hypothesis,
+   replayed on the code):  {&x k: 1}  +  {a: &x [1, 2]}  under anchors=right -- the left KEY named x
+   is to be replaced by the right-hand node named x, an Array: `data.insert(idx, repl_node, ...)`
+   hashes it and the merge ends in TypeError (unhashable type: 'CommentedSeq'), neither a document
+   nor a MergeException. *)
+Definition w3_l : node := NMap (mkinfo 2 None true None) [(lf 3 (Some "x") (PStr "k"), lf 4 None (PInt 1))].
+Definition w3_r : node :=
+  NMap (mkinfo 5 None true None)
+       [(lf 6 None (PStr "a"), NSeq (mkinfo 7 (Some "x") true None) [lf 4 None (PInt 1); lf 8 None (PInt 2)])].
+
+Theorem C10_no_crash_refuted :
+  exists cfg l r,
+    anchor_merge_mode cfg = Ok KRight /\ keys_plain l = false /\
+    resolve_conflicts cfg l r = Raise (PyCrash TypeError).
+Proof. exists (ex_cfg "right"), w3_l, w3_r. repeat split; vm_compute; reflexivity. Qed.
+
 (* 'stop', exactly: a MergeException iff some common name does not match *)
 Theorem C10_stop_exact_partial :
   forall cfg l r,
